@@ -137,9 +137,18 @@ class ModuleInfo:
             from .normalize import normalize
             from .inline import canonical_decomposition
             self._tree_id = id(self.tree)
+            # a failure of the canonicalisation itself must not take the check down: the step is skipped and says so
             if not os.environ.get('SA_NO_INLINE'):
-                self.decomposition_log += canonical_decomposition(self.tree, name, restored=restored)
-            self.tree = normalize(self.tree)
+                try:
+                    self.decomposition_log += canonical_decomposition(self.tree, name, restored=restored)
+                except Exception as e:                  # pragma: no cover
+                    self.decomposition_log.append('%s: canonical decomposition skipped (%r)' % (name, e))
+                    self.tree = ast.parse(text)
+            try:
+                self.tree = normalize(self.tree)
+            except Exception as e:                      # pragma: no cover
+                self.decomposition_log.append('%s: normalisation skipped (%r)' % (name, e))
+                self.tree = ast.parse(text)
         self.sha256 = hashlib.sha256(text.encode()).hexdigest()
         self.imports: Dict[str, str] = {}     # local name -> dotted target
         self.star_imports: List[str] = []
@@ -233,12 +242,23 @@ class Program:
                 except SyntaxError as e:
                     raise AnalysisError('cannot parse %s: %s' % (rel, e))
                 inline.PROTECTED[id(trees[name])] = set()
-                logs[name] = inline.restore_renamed(trees[name], name)
-                logs[name] += inline.restore_renamed_attributes(trees[name], name)
-            for name, extra in inline.restore_cross_module(trees).items():
-                logs[name] = logs.get(name, []) + extra
+                try:
+                    logs[name] = inline.restore_renamed(trees[name], name)
+                    logs[name] += inline.restore_renamed_attributes(trees[name], name)
+                except Exception as e:                  # pragma: no cover
+                    trees[name] = ast.parse(text)
+                    inline.PROTECTED[id(trees[name])] = set()
+                    logs[name] = ['%s: restoring renamed functions skipped (%r)' % (name, e)]
+            try:
+                for name, extra in inline.restore_cross_module(trees).items():
+                    logs[name] = logs.get(name, []) + extra
+            except Exception as e:                      # pragma: no cover
+                logs.setdefault('yatiml', []).append('restoring moved functions skipped (%r)' % (e,))
             for name in trees:
-                logs[name] = logs.get(name, []) + inline.restore_inlined(trees[name], name)
+                try:
+                    logs[name] = logs.get(name, []) + inline.restore_inlined(trees[name], name)
+                except Exception as e:                  # pragma: no cover
+                    logs[name] = logs.get(name, []) + ['%s: folding inlined functions back skipped (%r)' % (name, e)]
         for name, text in sources.items():
             rel = name.replace('.', '/') + ('.py' if name != 'yatiml' else '/__init__.py')
             self.modules[name] = ModuleInfo(name, text, rel, trees.get(name), logs.get(name))
